@@ -223,8 +223,11 @@ func (self *CallStm) format(printer *printer, prefix string) {
 		len(self.Modifiers.Bindings.List) > 0 ||
 		self.Modifiers.Local || self.Modifiers.Preflight || self.Modifiers.Volatile) {
 		if self.Modifiers.Bindings == nil {
+			// Take only the location from the call.  Copying the whole
+			// node would repeat the call's comments on the using block
+			// and on every binding synthesized below.
 			self.Modifiers.Bindings = &BindStms{
-				Node: self.Node,
+				Node: NewAstNode(self.Node.Loc),
 			}
 		}
 		printer.mustWriteString(") using (\n")
